@@ -95,7 +95,9 @@ def gen_plan(seed: int, run: int, tier: str) -> dict:
         "chunked_write": rng.random() < 0.4,
         "grace_period": 30,
         "snapshot_interval": rng.choice([2, 2, 3, 5]),
-        "split_seed": rng.getrandbits(30),        "pickled_clients": rng.random() < 0.3,
+        "split_seed": rng.getrandbits(30),
+        "pickled_clients": rng.random() < 0.3,
+        "redis_stalls": ([{"nth": rng.randint(0, 8), "dur": rng.choice([0.5, 15.0, 40.0])} for _ in range(rng.randint(1, 2))] if "jr" in kind and rng.random() < 0.35 else []),
     }
     return {"check": ID, "seed": seed, "run": run, "cfg": cfg, "setup": setup, "tasks": tasks, "sched": {"seed": rng.getrandbits(48)}}
 
